@@ -5290,6 +5290,17 @@ def fuse_comprehensions(e):
     class F(ast.NodeTransformer):
         def _fuse(self, n):
             self.generic_visit(n)
+            # [E(a, b) for a, b in [(X(i), Y(i)) for i in IT]]  ->  [E(X(i), Y(i)) for i in IT]      (a tuple target against a tuple element)
+            if len(n.generators) == 1 and not n.generators[0].ifs and isinstance(n.generators[0].target, ast.Tuple) \
+                    and all(isinstance(t_, ast.Name) for t_ in n.generators[0].target.elts):
+                inner = n.generators[0].iter
+                if isinstance(inner, (ast.ListComp, ast.GeneratorExp)) and len(inner.generators) == 1 and not inner.generators[0].ifs and isinstance(inner.elt, ast.Tuple) \
+                        and len(inner.elt.elts) == len(n.generators[0].target.elts) and all(_cheap(x_) or isinstance(x_, ast.Subscript) for x_ in inner.elt.elts):
+                    names_ = [t_.id for t_ in n.generators[0].target.elts]
+                    if len(set(names_) - {"_"}) == len([x_ for x_ in names_ if x_ != "_"]):
+                        n.elt = _Sub({nm_: v_ for nm_, v_ in zip(names_, inner.elt.elts) if nm_ != "_"}, {}).visit(n.elt)
+                        n.generators = inner.generators
+                        return n
             if len(n.generators) == 1 and not n.generators[0].ifs and isinstance(n.generators[0].target, ast.Name):
                 inner = n.generators[0].iter
                 if isinstance(inner, (ast.ListComp, ast.GeneratorExp)) and len(inner.generators) == 1 and not inner.generators[0].ifs:
